@@ -497,6 +497,7 @@ Proof.
                 (fun s0 h J0 => J_ext s0 (w_height h s0) eq_refl eq_refl eq_refl eq_refl J0) s I Hj) as (_ & Q & _).
     exact Q.
   - destruct (nst_balance s staker asset x) as [s'|] eqn:E; simpl; [|exact Hj]. eapply nst_balance_J; eauto.
+  - exact Hj.
 Qed.
 
 Lemma run_J ops : forall s, idx_inv s -> J s -> hist_ok s ops = true -> J (run ops s).
